@@ -8,7 +8,9 @@ use vstd::prelude::*;
 use super::*;
 
 pub enum DataType { Int8, UInt8, Int16, UInt16, Int32, UInt32, Float32, Struct(Vec<Field>), List(Box<Field>) }
-pub struct Field { pub name: String, pub data_type: DataType, pub is_nullable: bool }
+pub struct Field { pub name: String, pub data_type: DataType, pub is_nullable: bool, pub metadata: FieldMetadata }
+pub struct FieldMetadata { pub _p: () }
+impl Default for FieldMetadata { #[verifier::external_body] fn default() -> (r: Self) { unimplemented!() } }
 
 // the mathematical model of a data type: names, nesting, order, primitive types
 pub enum DTm { Int8, UInt8, Int16, UInt16, Int32, UInt32, Float32, Struct(Seq<FieldM>), List(Box<FieldM>) }
@@ -148,6 +150,8 @@ impl StructArray {
 	{ unimplemented!() }
 	#[verifier::external_body]
 	pub fn boxed(self) -> (r: ArrayBox) ensures r == ArrayBox::Struct(self) { unimplemented!() }
+	#[verifier::external_body]
+	pub fn data_type(&self) -> (r: &DataType) ensures *r == self.data_type { unimplemented!() }
 }
 impl Clone for StructArray {
 	#[verifier::external_body]
